@@ -230,7 +230,9 @@ func runC13Def(c *Ctx) {
 			} else {
 				other = s.Else
 			}
-			if other == nil || !reports(other) {
+			if w := exactlyOneKeyCheck(info, kl); w != "" && (other == nil || !reports(other)) {
+				c.ok(name, s.Pos(), w)
+			} else if other == nil || !reports(other) {
 				c.bad(name, s.Pos(), "the branch taken for keys other than "+strings.Join(kl.labels, ", ")+" does not report them with unexpectedKey")
 			} else {
 				c.ok(name, s.Pos(), "keys other than "+strings.Join(kl.labels, ", ")+" are reported at the key")
@@ -816,4 +818,43 @@ func runC13FixedLen(c *Ctx) {
 			}
 		}
 	})
+}
+
+// exactlyOneKeyCheck: the statement list that contains the key loop first tests `len(m) != 1 || m[0].id != "<label>"`
+// on the ranged entries and reports an error in that branch: any key other than the one keyword is reported (at the
+// element) before the loop picks the keyword out.
+func exactlyOneKeyCheck(info *types.Info, kl *keyLoop) string {
+	if len(kl.labels) != 1 || len(kl.parents) == 0 {
+		return ""
+	}
+	blk, ok := kl.parents[len(kl.parents)-1].(*ast.BlockStmt)
+	if !ok {
+		return ""
+	}
+	m := exprStr(kl.rs.X)
+	want := fmt.Sprintf("len(%s) != 1 || %s[0].id != %q", m, m, kl.labels[0])
+	for _, st := range blk.List {
+		if st == ast.Stmt(kl.rs) {
+			break
+		}
+		ifs, ok := st.(*ast.IfStmt)
+		if !ok || exprStr(ifs.Cond) != want {
+			continue
+		}
+		reported := false
+		ast.Inspect(ifs.Body, func(x ast.Node) bool {
+			if call, ok := x.(*ast.CallExpr); ok {
+				if fn := calleeObj(info, call); fn != nil {
+					if n := shortFuncName(fn); n == "(*parser).error" || n == "(*parser).errorf" {
+						reported = true
+					}
+				}
+			}
+			return true
+		})
+		if reported {
+			return "the element is reported unless it has exactly the key " + kl.labels[0] + "; the loop then picks that key out"
+		}
+	}
+	return ""
 }
